@@ -31,6 +31,11 @@ func main() {
 		} else {
 			err = interpMain(*seed, *n, *out, *gen)
 		}
+	case "c01":
+		self, _ := os.Executable()
+		err = c01Main(*seed, *n, *out, self)
+	case "c01child":
+		err = c01Child(*replay)
 	case "c17":
 		err = c17Main(*seed, *n, *out, *repo)
 	default:
